@@ -276,7 +276,7 @@ def run_server(case: dict):
 
 
 def enum_client(tier):
-    for mode in ("tofu", "ca", "no-tofu"):
+    for mode in ("tofu", "ca", "no-tofu", "tofu-identity", "no-tofu-identity", "supplied-context"):
         for vn in VERS:
             for op in ("get", "upload"):
                 yield {"mode": mode, "v": vn, "op": op}
@@ -305,6 +305,15 @@ def run_client(case: dict):
                 client = GeminiClient(timeout=10, verify_ssl=True, trust_on_first_use=False)
             elif case["mode"] == "tofu":
                 client = GeminiClient(timeout=10, tofu_db_path=Path(d) / "tofu.db")
+            elif case["mode"] in ("tofu-identity", "no-tofu-identity"):
+                # the client presents a client certificate of its own
+                ident = certs.get("ec-a")
+                client = GeminiClient(timeout=10, tofu_db_path=Path(d) / "tofu.db", trust_on_first_use=case["mode"] == "tofu-identity",
+                                      client_cert=Path(ident.cert_path), client_key=Path(ident.key_path))
+            elif case["mode"] == "supplied-context":
+                from nauyaca.security.tls import create_client_context
+
+                client = GeminiClient(timeout=10, tofu_db_path=Path(d) / "tofu.db", ssl_context=create_client_context())
             else:
                 client = GeminiClient(timeout=10, trust_on_first_use=False)
         finally:
